@@ -316,13 +316,55 @@ func mergeSnapshots(next, existing metadata.ClusterMetadata) metadata.ClusterMet
 					next.Topics = append([]protocol.MetadataTopic(nil), next.Topics...)
 					copied = true
 				}
-				next.Topics[idx].Partitions = topic.Partitions
+				next.Topics[idx].Partitions = reassignMissingBrokers(topic.Partitions, next.Brokers)
 			}
 			continue
 		}
+		topic.Partitions = reassignMissingBrokers(topic.Partitions, next.Brokers)
 		next.Topics = append(next.Topics, topic)
 	}
 	return next
+}
+
+// reassignMissingBrokers returns the partition list carried over from the stored
+// snapshot with every reference to a broker that is no longer listed replaced:
+// such a leader is re-assigned round-robin and such a replica or ISR list is
+// re-rendered, both as BuildClusterMetadata does for new partitions. The stored
+// list was written under the broker set of its time; after a scale-down it would
+// otherwise name brokers the published snapshot does not contain. The number of
+// partitions and every reference to a broker that still exists are kept.
+func reassignMissingBrokers(partitions []protocol.MetadataPartition, brokers []protocol.MetadataBroker) []protocol.MetadataPartition {
+	if len(brokers) == 0 {
+		return partitions
+	}
+	ids := make([]int32, len(brokers))
+	listed := make(map[int32]bool, len(brokers))
+	for i, broker := range brokers {
+		ids[i] = broker.NodeID
+		listed[broker.NodeID] = true
+	}
+	allListed := func(nodes []int32) bool {
+		for _, id := range nodes {
+			if !listed[id] {
+				return false
+			}
+		}
+		return true
+	}
+	out := make([]protocol.MetadataPartition, len(partitions))
+	copy(out, partitions)
+	for i := range out {
+		if !listed[out[i].Leader] {
+			out[i].Leader = ids[i%len(ids)]
+		}
+		if !allListed(out[i].Replicas) {
+			out[i].Replicas = ids
+		}
+		if !allListed(out[i].ISR) {
+			out[i].ISR = ids
+		}
+	}
+	return out
 }
 
 func isRetryableEtcdError(err error) bool {
